@@ -34,8 +34,8 @@ var wireLen = map[int]int{
 	7: 3, 8: 3, 9: 3,
 	10: 4, 11: 4, 232: 4,
 	12: 5, 13: 5, 14: 5, 15: 5,
-	16: 15,
-	19: 9,
+	16:  15,
+	19:  9,
 	242: 7, 251: 7,
 	28: 0,
 }
